@@ -54,7 +54,17 @@ def check_any_accepts_every_array_like(ctx):
     cls_p, obj = f.params[0], (f.params[1] if len(f.params) > 1 else "obj")
     tops = [st for st in walk_scope(f.node) if isinstance(st, ast.If) and norm(st.test) in (f"{cls_p}.array_type is Any", f"Any is {cls_p}.array_type")]
     need(len(tops) == 1, "C15.6: the `array_type is Any` branch of the array check was not found")
-    rej = [st for st in tops[0].body if isinstance(st, ast.If) and any(isinstance(x, ast.Return) and not (isinstance(x.value, ast.Constant) and x.value.value == "") for x in st.body)]
+    def _rejects(st):
+        for x in st.body:
+            if isinstance(x, ast.Return) and not (isinstance(x.value, ast.Constant) and x.value.value == ""):
+                return True
+            # the verdict carried in a local (an inlined helper): `check = '<message>'; break`
+            if isinstance(x, ast.Assign) and len(x.targets) == 1 and isinstance(x.targets[0], ast.Name) and (
+                    (isinstance(x.value, ast.Constant) and isinstance(x.value.value, str) and x.value.value != "") or isinstance(x.value, ast.JoinedStr)):
+                return True
+        return False
+
+    rej = [st for st in tops[0].body if isinstance(st, ast.If) and _rejects(st)]
     need(len(rej) >= 1 and len(rej) == len(tops[0].body), "C15.6: the `Any` branch is not made of rejecting tests only")
     if len(rej) > 1:
         # further rejections: each is an extra requirement unless it only asks for the two attributes again
